@@ -71,6 +71,7 @@ PHRASES = ["input.regex", "see input.regex"] + [f(w) for w in WORDS for f in (la
                                         lambda w: "a " + w.upper() + " b")]
 NUMS = [str(10 ** k) for k in range(0, 20)] + ["0", "7", "007", "0012", "1234", "99999", str(2 ** 31), str(2 ** 31 - 1), str(2 ** 63), str(2 ** 63 - 1),
                                               "12345678901234567890", "9" * 20, "1" * 19]
+NUMS += [("9876543210" * 8)[:k] for k in range(21, 71)]  # scale sweep: every digit count up to 70
 NUMCTX = [("int", ""), ("bigint", " NOT NULL"), ("numeric(20)", ", c2 int"), ("int", " PRIMARY KEY")]
 # numeric defaults given by an ALTER statement that re-declares the column (the earlier default 10 must be replaced, also by 0)
 NUMALTER = ["ALTER TABLE t ADD CONSTRAINT dn DEFAULT {v} FOR c1;", "ALTER TABLE t MODIFY COLUMN c1 int DEFAULT {v};", "ALTER TABLE t ALTER COLUMN c1 int DEFAULT {v};", "ALTER TABLE t MODIFY c1 int DEFAULT {v};"]
@@ -99,6 +100,14 @@ def gen_cases(tier):
         if s not in seen:
             seen.add(s)
             lits.append(s)
+    # scale sweep: a literal of every length 3..160 (thorough ..600) over harmless characters (letters, digits, single blanks, - _ . : /)
+    pat = "abc_def-ghi.jkl:mno/pqr 123 Stu Vwx 4567 yz " * 16
+    for n in range(3, (600 if tier == "thorough" else 160) + 1):
+        t = pat[:n]
+        t = t[:-1] + "x" if t.endswith(" ") else t
+        if t not in seen:
+            seen.add(t)
+            lits.append(t)
     cases = []
     for s in [""] + lits:
         if s.replace("''", "").count("'"):
